@@ -318,12 +318,15 @@ class AInt:
         self.interp = interp
         self.isbool = isbool
         self.signed = signed
+        self.oext = None         # reason why the magnitude is unknown (set for opaque arithmetic results)
 
     def bit(self, j):
         if j < len(self.bits):
             return self.bits[j]
         if self.ext is not None:
             return self.interp.atom_form((self.ext, "int", j))
+        if self.oext is not None:
+            return OB(self.oext)      # an integer of UNKNOWN magnitude (opaque arithmetic): no position is known to be 0
         return ZERO
 
     @property
